@@ -980,7 +980,7 @@ type c16B struct {
 
 // c16Features: positions and shapes beyond the basic builder. In the random stream each is switched on now and then;
 // the focused family enumerates, for each, all decisions of the reference placed there.
-var c16Features = []string{"pex", "hex", "hcontent", "enc", "disc", "nullmt", "pichain", "pielem", "cbcycle", "toplink", "topexample", "topsec", "topheader", "topresponse"}
+var c16Features = []string{"mtnoschema", "pichainfile", "pex", "hex", "hcontent", "enc", "disc", "nullmt", "pichain", "pielem", "cbcycle", "toplink", "topexample", "topsec", "topheader", "topresponse"}
 
 func (b *c16B) want(f string, oneIn int) bool {
 	if b.focus {
@@ -1319,6 +1319,11 @@ func (b *c16B) val(kind, file string, depth int) any {
 			content["multipart/form-data"] = map[string]any{"schema": map[string]any{"type": "object", "properties": map[string]any{"f": map[string]any{"type": "string"}}},
 				"encoding": map[string]any{"f": map[string]any{"headers": map[string]any{"H": b.liveSlot("headers", file, depth)}}}}
 		}
+		if depth > 0 && b.want("mtnoschema", 6) {
+			// a media type WITHOUT schema: its examples and encoding headers are internalised all the same
+			content["text/plain"] = map[string]any{"examples": map[string]any{"e": b.liveSlot("examples", file, depth)}}
+			content["text/csv"] = map[string]any{"encoding": map[string]any{"f": map[string]any{"headers": map[string]any{"H": b.liveSlot("headers", file, depth)}}}}
+		}
 		if depth > 0 && b.want("nullmt", 12) {
 			// null entries that load and validate (b68fdca): a null media type, a null encoding
 			content["text/null"] = nil
@@ -1365,7 +1370,7 @@ func (b *c16B) val(kind, file string, depth int) any {
 				switch b.force {
 				case "pex":
 					parts |= 2
-				case "enc", "nullmt":
+				case "enc", "nullmt", "mtnoschema":
 					parts |= 1
 				case "cbcycle":
 					parts |= 4
@@ -1450,6 +1455,13 @@ func (b *c16B) build(depth int) {
 		paths["/z"] = b.val("pathItem", b.root, depth)
 		paths["/x"] = map[string]any{"$ref": "#/paths/~1z"}
 		paths["/w"] = map[string]any{"$ref": "#/paths/~1x"}
+	case b.want("pichainfile", 12):
+		// a whole-file path item whose file is itself a reference to another file (376b90f)
+		t1 := b.dirOfRoot() + "paths/p1.json"
+		t2 := b.dirOfRoot() + "paths/deep/p2.json"
+		b.files[t2] = b.val("pathItem", t2, depth)
+		b.files[t1] = map[string]any{"$ref": b.spell(t1, t2)}
+		paths["/x"] = map[string]any{"$ref": b.spell(b.root, t1)}
 	case b.want("pielem", 12):
 		// a path item given by an element reference into the paths section of another document
 		docp := b.dirOfRoot() + "defs.json"
@@ -1631,8 +1643,148 @@ func c16Witnesses() []c16Named2 {
 			"defs.json": c16_jm("components", c16_jm("examples", c16_jm("N21", c16_jm("value", 22))),
 				"paths", c16_jm("/p", c16_jm("post", c16_jm("parameters", []any{jref("sub/par.json")}, "responses", c16_jm("200", c16_jm("description", "r")))))),
 			"sub/par.json": c16_jm("name", "p", "in", "query", "schema", c16_jm("type", "integer"), "examples", c16_jm("e", jref("../openapi.json#/components/examples/L20")))}},
+		{"path-item-file-chain", "openapi.json", map[string]any{
+			"openapi.json": c16RootDoc(c16_jm(), c16_jm("/x", jref("p1.json"))),
+			"p1.json":      jref("sub/p2.json"),
+			"sub/p2.json":  c16_jm("get", c16_jm("responses", c16_jm("200", jref("r.json")))),
+			"sub/r.json":   c16_jm("description", "r")}},
+		{"same-name-response-then-request-body", "openapi.json", map[string]any{
+			"openapi.json": c16RootDoc(c16_jm(), c16_jm(
+				"/a", c16_jm("post", c16_jm("responses", c16_jm("200", jref("common.json#/components/responses/Item")))),
+				"/b", c16_jm("post", c16_jm("requestBody", jref("common.json#/components/requestBodies/Item"), "responses", c16_jm("200", c16_jm("description", "ok")))))),
+			"common.json": c16_jm("components", c16_jm("responses", c16_jm("Item", c16_jm("description", "r11")),
+				"requestBodies", c16_jm("Item", c16_jm("description", "b12", "content", c16_jm("application/json", c16_jm("schema", jstrS(12)))))))}},
+		{"media-type-without-schema", "openapi.json", map[string]any{
+			"openapi.json": c16RootDoc(c16_jm(), c16_jm("/x", c16_jm("post", c16_jm("requestBody", c16_jm("content", c16_jm(
+				"text/plain", c16_jm("examples", c16_jm("e", jref("ex.json"))),
+				"text/csv", c16_jm("encoding", c16_jm("f", c16_jm("headers", c16_jm("H", jref("h.json"))))))),
+				"responses", c16_jm("200", c16_jm("description", "ok")))))),
+			"ex.json": c16_jm("value", 5), "h.json": c16_jm("schema", c16_jm("type", "integer", "maximum", 9))}},
 		{"callback-cycle", "openapi.json", map[string]any{
 			"openapi.json": c16RootDoc(c16_jm("callbacks", c16_jm("cb", c16_jm("{$request.body#/u}", c16_jm("post", c16_jm("responses", c16_jm("200", c16_jm("description", "r")), "callbacks", c16_jm("again", jref("#/components/callbacks/cb"))))))), nil)}},
+	}
+}
+
+// ---------------------------------------------------------------- same generated name for targets of two kinds
+
+// c16Inline: a small inline value of the kind (n makes the content distinct)
+func c16Inline(kind string, n int) any {
+	switch kind {
+	case "schemas":
+		return jstrS(n)
+	case "parameters":
+		return c16_jm("name", fmt.Sprint("p", n), "in", "query", "schema", jstrS(n))
+	case "headers":
+		return c16_jm("description", fmt.Sprint("h", n), "schema", jstrS(n))
+	case "requestBodies":
+		return c16_jm("description", fmt.Sprint("b", n), "content", c16_jm("application/json", c16_jm("schema", jstrS(n))))
+	case "responses":
+		return c16_jm("description", fmt.Sprint("r", n))
+	case "securitySchemes":
+		return c16_jm("type", "http", "scheme", "basic", "description", fmt.Sprint("s", n))
+	case "examples":
+		return c16_jm("value", n)
+	case "links":
+		return c16_jm("operationId", "opx", "description", fmt.Sprint("l", n))
+	default: // callbacks
+		return c16_jm("{$request.body#/u}", c16_jm("post", c16_jm("responses", c16_jm("200", c16_jm("description", fmt.Sprint("c", n))))))
+	}
+}
+
+// c16Place puts a reference of the kind at one of the places the descent visits: "comp" (root component of the kind),
+// "nest" (inside a root component of an EARLIER collection), "/a" or "/b" (in the operation of that path).
+// Returns false when the kind has no such place.
+func c16Place(comps, paths map[string]any, kind, place string, ref any, tag string) bool {
+	setc := func(k, n string, v any) {
+		m, _ := comps[k].(map[string]any)
+		if m == nil {
+			m = map[string]any{}
+			comps[k] = m
+		}
+		m[n] = v
+	}
+	switch place {
+	case "comp":
+		setc(kind, "T"+tag, ref)
+		return true
+	case "nest":
+		switch kind {
+		case "schemas":
+			setc("parameters", "TP"+tag, c16_jm("name", "q"+tag, "in", "query", "schema", ref))
+		case "headers":
+			setc("responses", "TR"+tag, c16_jm("description", "nest"+tag, "headers", c16_jm("H", ref)))
+		case "examples":
+			setc("requestBodies", "TB"+tag, c16_jm("content", c16_jm("application/json", c16_jm("schema", jstrS(2), "examples", c16_jm("e", ref)))))
+		case "links":
+			setc("responses", "TR"+tag, c16_jm("description", "nest"+tag, "links", c16_jm("l", ref)))
+		default:
+			return false
+		}
+		return true
+	}
+	if kind == "securitySchemes" {
+		return false
+	}
+	op := c16_jm("responses", c16_jm("200", c16_jm("description", "ok"+tag)))
+	switch kind {
+	case "schemas":
+		op["responses"] = c16_jm("200", c16_jm("description", "ok"+tag, "content", c16_jm("application/json", c16_jm("schema", ref))))
+	case "parameters":
+		op["parameters"] = []any{ref}
+	case "headers":
+		op["responses"] = c16_jm("200", c16_jm("description", "ok"+tag, "headers", c16_jm("H", ref)))
+	case "requestBodies":
+		op["requestBody"] = ref
+	case "responses":
+		op["responses"] = c16_jm("200", ref)
+	case "examples":
+		op["responses"] = c16_jm("200", c16_jm("description", "ok"+tag, "content", c16_jm("application/json", c16_jm("schema", jstrS(2), "examples", c16_jm("e", ref)))))
+	case "links":
+		op["responses"] = c16_jm("200", c16_jm("description", "ok"+tag, "links", c16_jm("l", ref)))
+	case "callbacks":
+		op["callbacks"] = c16_jm("cb", ref)
+	}
+	paths[place] = c16_jm("post", op)
+	return true
+}
+
+// c16SameName: for every pair of the nine component kinds, external targets common.json#/components/<k1>/Item and
+// …/<k2>/Item (both are named common_Item by the resolver), referenced from every pair of places — so that each of
+// the two is internalised first in some layout whenever the order of the descent allows it. The collections are
+// separate maps: nothing may be shared between them.
+func c16SameName(emit func(root string, files map[string]any)) {
+	places := []string{"comp", "nest", "/a", "/b"}
+	for i, k1 := range c16Kinds {
+		for j, k2 := range c16Kinds {
+			if j <= i {
+				continue
+			}
+			for _, p1 := range places {
+				for _, p2 := range places {
+					if p1 == p2 && (p1 == "/a" || p1 == "/b") {
+						continue
+					}
+					for _, root := range []string{"openapi.json", "/r/a/openapi.json"} {
+						dir := path.Dir(root)
+						common := "common.json"
+						if dir != "." {
+							common = dir + "/common.json"
+						}
+						comps, paths := map[string]any{}, map[string]any{}
+						ok1 := c16Place(comps, paths, k1, p1, jref("common.json#/components/"+k1+"/Item"), "1")
+						ok2 := c16Place(comps, paths, k2, p2, jref("common.json#/components/"+k2+"/Item"), "2")
+						if !ok1 || !ok2 {
+							continue
+						}
+						files := map[string]any{
+							root:   c16RootDoc(comps, paths),
+							common: c16_jm("components", c16_jm(k1, c16_jm("Item", c16Inline(k1, 11)), k2, c16_jm("Item", c16Inline(k2, 12)))),
+						}
+						emit(root, files)
+					}
+				}
+			}
+		}
 	}
 }
 
@@ -1645,8 +1797,10 @@ func init() {
 			"whole-file path items, callbacks; reference styles: inline, whole-file, element into definitions documents, component of the same document, back into the root; " +
 			"re-use of existing targets; three spellings of the same relative path; cycles): ALL decision tapes up to a fixed length (exhaustive); a FOCUSED family per feature " +
 			"(examples of parameters / headers, header content, encoding headers, discriminator mapping over oneOf, null media type / encoding entries, path item chains '#/paths/..', " +
+			"a whole-file path item whose file is itself a reference, media types without schema carrying examples / encoding headers, " +
 			"path item by element reference into another document, callback leading back to its path item, whole-kind root components for links / examples / securitySchemes / headers / responses): " +
-			"all decision tapes of the reference placed at that position; hand-written witness layouts; then a seeded random stream of deeper layouts in which every feature is switched on now and then. " +
+			"all decision tapes of the reference placed at that position; a SAME-NAME family (targets common.json#/components/<k1>/Item and …/<k2>/Item for every pair of the nine kinds, referenced from every pair of places " +
+			"root component / nested in an earlier root component / path /a / path /b, so that either is internalised first wherever the descent's order allows); hand-written witness layouts; then a seeded random stream of deeper layouts in which every feature is switched on now and then. " +
 			"Each is loaded with external refs allowed, internalised, checked for an infinite tree, marshalled, reloaded with external refs disallowed and compared. " +
 			"Non-trivial = the model reports at least one branch (an external reference added, an existing name re-used, root-component match, parent-is-external propagation, visited-set hit, …); " +
 			"the has.* / root.* branches give the distribution of layout features.",
@@ -1738,6 +1892,14 @@ func genC16(ctx *hx.Ctx, emit func(hx.Case)) {
 		}
 	}
 	rec([]int{})
+	// same generated name for targets of two kinds: every pair of kinds × every pair of places × two root locations
+	c16SameName(func(root string, files map[string]any) {
+		key := hx.Canon(files) + root
+		if !seen[key] {
+			seen[key] = true
+			c16Emit(emit, root, files, "", false)
+		}
+	})
 	// focused layouts: for every feature, all decision tapes (same length) of the reference placed at that position
 	for _, f := range c16Features {
 		f := f
